@@ -221,29 +221,31 @@ impl SourceView {
     /// Note that columns are indexed as JavaScript WTF-16 columns.
     pub fn get_line_slice(&self, line: u32, col: u32, span: u32) -> Option<&str> {
         self.get_line(line).and_then(|line| {
+            // `col + span` must not overflow `u32`
+            let end = u64::from(col) + u64::from(span);
             let mut off = 0;
-            let mut idx = 0;
+            let mut idx = 0u64;
             let mut char_iter = line.chars().peekable();
 
             while let Some(&c) = char_iter.peek() {
-                if idx >= col as usize {
+                if idx >= u64::from(col) {
                     break;
                 }
                 char_iter.next();
                 off += c.len_utf8();
-                idx += c.len_utf16();
+                idx += c.len_utf16() as u64;
             }
 
             let mut off_end = off;
             for c in char_iter {
-                if idx >= (col + span) as usize {
+                if idx >= end {
                     break;
                 }
                 off_end += c.len_utf8();
-                idx += c.len_utf16();
+                idx += c.len_utf16() as u64;
             }
 
-            if idx < ((col + span) as usize) {
+            if idx < end {
                 None
             } else {
                 line.get(off..off_end)
